@@ -776,6 +776,21 @@ def run(ctx):
         for wi in ((1, 2) if (thorough and n <= 4) else (1,)):
             for ps in _pspecs(n, thorough, 6):
                 cases.append((n, d, m, wi, ps, "both" if thorough else "alt"))
+    # a fixed list of larger disconnected graphs (components of 5 nodes
+    # whose labels are not 0..Nc-1 after relabelling): component-wise
+    # measures index per-component arrays, which 5-node graphs cannot reach
+    from ..domains import mask_of
+    for edges, nn in (
+            ([(0, 1), (1, 2), (2, 3), (3, 4)], 6),                  # P5 + K1
+            ([(0, 1), (1, 2), (2, 3), (3, 4), (4, 0)], 6),          # C5 + K1
+            ([(0, 1), (1, 2), (2, 3), (3, 0), (0, 4), (1, 4)], 6),  # house+K1
+            ([(0, 1), (0, 2), (0, 3), (0, 4), (1, 2)], 6),          # paw-star
+            ([(0, 1), (1, 2), (2, 0), (3, 4), (4, 5), (5, 3)], 6),  # 2 x K3
+            ([(0, 1), (1, 2), (2, 3), (3, 4), (5, 6)], 7)):         # P5 + K2
+        A_ = np.zeros((nn, nn), dtype=int)
+        for (i, j) in edges:
+            A_[i, j] = A_[j, i] = 1
+        cases.append((nn, False, mask_of(A_, False), 1, ["sample"], "alt"))
     probe = [c for c in cases if c[0] == 3 and not c[1]][-1]
     a, b = fam_net(probe), fam_net(probe)
     assert a["sig"] == b["sig"] and a["evals"] == b["evals"] and \
